@@ -53,6 +53,19 @@ def cases(ctx):
                 if ctx.mine(k):
                     yield {"kind": "template-routes", "route": route, "host_values": host_values, "hardware": "generic",
                            "values": [[rng.randrange(1, 32), rng.randrange(1, 16)] for _ in range(rng.choice([2, 3, 4]))]}
+    # a pre-compiled round is committed while the next round is half queued; the next round measures into registers before and
+    # after that commit
+    for first_to in ("new", "reg"):
+        for v in (3, 17):
+            k += 1
+            if ctx.mine(k):
+                to0 = {"kind": "new", "name": "m0"} if first_to == "new" else {"kind": "reg", "name": "mr0"}
+                prog = [{"op": "qalloc", "q": "q0"}, {"op": "rot", "axis": "x", "q": "q0", "n": {"tmpl": "t0"}, "d": 4},
+                        {"op": "meas", "q": "q0", "to": to0, "inplace": False}, {"op": "flush"},
+                        {"op": "qalloc", "q": "q1"}, {"op": "gate", "g": "x", "q": "q1"}, {"op": "meas", "q": "q1", "to": {"kind": "reg", "name": "mr1"}, "inplace": False},
+                        {"op": "qalloc", "q": "q2"}, {"op": "gate", "g": "h", "q": "q2"}, {"op": "meas", "q": "q2", "to": {"kind": "reg", "name": "mr2"}, "inplace": False}]
+                yield {"kind": "twin", "prog": prog, "values": {"t0": v}, "modes": ["pre-late", "direct"], "hardware": "generic", "script": [0, 1, 0],
+                       "family": "commit-between-register-measurements"}
     for _ in range(ctx.n(150, 15000)):
         yield rounds_case(rng, "nv" if rng.random() < 0.25 else "generic")
     for _ in range(ctx.n(140, 20000)):
@@ -149,7 +162,15 @@ def _template_routes(ctx, case):
             if route in ("same-object", "same-object-refused-first", "hw-template"):
                 block()
                 tmpl = conn.compile()
+                kept_vals = {}
                 for a_, b_ in values:
+                    if route == "same-object" and case.get("host_values"):
+                        # the application keeps ONE dict of values and updates it in place for every round
+                        kept_vals["a"], kept_vals["b"] = a_, b_
+                        tmpl.instantiate(conn.app_id, kept_vals)
+                        conn.commit_subroutine(tmpl)
+                        ctx.count("rounds_filled_in_from_one_dict_updated_in_place")
+                        continue
                     if route == "same-object-refused-first":
                         try:
                             tmpl.instantiate(conn.app_id, {"a": wrap(a_ ^ 1)})
